@@ -22,6 +22,12 @@ def _c(c):
     return f'probe.cond("{c}")'
 
 
+def _subs(x):
+    if isinstance(x, (list, tuple)):
+        return ", ".join(f"{n}()" for n in x)
+    return f"{x}()"
+
+
 def render_block(stmts, prefix, ind, out):
     pad = "    " * ind
     if not stmts:
@@ -39,11 +45,11 @@ def render_block(stmts, prefix, ind, out):
         elif k == "waituntil":
             out.append(f"{pad}wait until {_c(st[1])}")
         elif k == "do":
-            out.append(f"{pad}do {st[1]}()")
+            out.append(f"{pad}do {_subs(st[1])}")
         elif k == "dofor":
-            out.append(f"{pad}do {st[1]}() for {st[2]} {st[3]}")
+            out.append(f"{pad}do {_subs(st[1])} for {st[2]} {st[3]}")
         elif k == "dountil":
-            out.append(f"{pad}do {st[1]}() until {_c(st[2])}")
+            out.append(f"{pad}do {_subs(st[1])} until {_c(st[2])}")
         elif k in ("choose", "shuffle"):
             items, form = st[1], st[2]
             if form == "dict":
@@ -103,12 +109,44 @@ def render(prog):
         render_block(m["body"], name, 1, out)
     agents = dict(prog["agents"])
     objects = prog.get("objects", prog["agents"])
+    objlines = []
     for i, (oname, _) in enumerate(objects):
         tgt = "ego" if i == 0 else f"ob{i}"
         beh = agents.get(oname)
         behs = f", with behavior {beh}()" if beh else ""
-        out.append(f'{tgt} = new Object at ({10 * i}, 0, 0), with name "{oname}", with allowCollisions True{behs}')
+        objlines.append(f'{tgt} = new Object at ({10 * i}, 0, 0), with name "{oname}", with allowCollisions True{behs}')
     top = prog.get("top", {})
+    if prog.get("main"):
+        # modular program: every scenario gets a setup block (probe + termination constructs)
+        # and optionally a compose block; the objects live in the main scenario's setup
+        for name, d in prog["scenarios"].items():
+            out.append(f"scenario {name}():")
+            for c in d.get("pre", ()):
+                out.append(f"    precondition: {_c(c)}")
+            for c in d.get("inv", ()):
+                out.append(f"    invariant: {_c(c)}")
+            out.append("    setup:")
+            out.append(f'        probe.ev("{name}.setup")')
+            if name == prog["main"]:
+                out.extend("        " + l for l in objlines)
+                for m in top.get("monitors", ()):
+                    out.append(f"        require monitor {m}()")
+                for c in top.get("termsim_when", ()):
+                    out.append(f"        terminate simulation when {_c(c)}")
+                for r in range(top.get("records", 0)):
+                    out.append(f'        record probe.rec("r{r}") as r{r}')
+                for r in range(top.get("records_final", 0)):
+                    out.append(f'        record final probe.rec("rf{r}") as rf{r}')
+            if d.get("terminate_after") is not None:
+                k, unit = d["terminate_after"]
+                out.append(f"        terminate after {k} {unit}")
+            for c in d.get("terminate_when", ()):
+                out.append(f"        terminate when {_c(c)}")
+            if d.get("compose") is not None:
+                out.append("    compose:")
+                render_block(d["compose"], name, 2, out)
+        return "\n".join(out) + "\n"
+    out.extend(objlines)
     for m in top.get("monitors", ()):
         out.append(f"require monitor {m}()")
     if top.get("terminate_after") is not None:
@@ -159,6 +197,15 @@ def conditions_of(prog):
         walk(b["body"])
     for m in prog.get("monitors", {}).values():
         walk(m["body"])
+    for d in prog.get("scenarios", {}).values():
+        for c in d.get("pre", ()):
+            add(c)
+        for c in d.get("inv", ()):
+            add(c)
+        if d.get("compose"):
+            walk(d["compose"])
+        for c in d.get("terminate_when", ()):
+            add(c)
     top = prog.get("top", {})
     for c in top.get("terminate_when", ()):
         add(c)
@@ -461,3 +508,78 @@ def switching_tables(names, steps):
                 t = {m: [True] for m in names}
                 t[n] = [first] * k + [not first]
                 yield t
+
+
+# ---------------------------------------------------------------------------------------
+# C12: modular fragment (nested scenarios with setup / compose)
+# ---------------------------------------------------------------------------------------
+
+C12_SUBSCENARIOS = {
+    "S1": {"terminate_after": (2, "steps"), "compose": [("wait",), ("wait",), ("wait",), ("wait",)]},
+    "S2": {"terminate_after": (1.5, "seconds"), "compose": None},
+    "S3": {"compose": [("wait",), ("terminate",), ("wait",)]},
+    "S4": {"compose": [("wait",), ("termsim",)]},
+    "S5": {"terminate_when": ["tws"], "compose": None},
+    "S6": {"compose": [("wait",), ("wait",)]},
+    "S7": {"compose": [("do", ["S1"]), ("wait",)]},
+    "S8": {"compose": [("dofor", ["S6", "S3"], 3, "steps"), ("waituntil", "c1")]},
+}
+
+
+def c12_modular_alphabet(thorough):
+    al = [
+        ("wait",),
+        ("do", ["S1"]),
+        ("do", ["S6", "S3"]),
+        ("do", ["S7"]),
+        ("dofor", ["S6"], 1, "steps"),
+        ("dofor", ["S1", "S2"], 3, "steps"),
+        ("dountil", ["S1"], "c1"),
+        ("do", ["S2"]),
+        ("do", ["S4"]),
+        ("waitfor", 1, "seconds"),
+        ("waituntil", "c1"),
+        ("terminate",),
+        ("termsim",),
+        ("loop", 2, [("do", ["S6"])]),
+    ]
+    if thorough:
+        al += [("do", ["S8"]), ("dountil", ["S7", "S2"], "c1"), ("dofor", ["S7"], 2, "steps"), ("do", ["S1", "S2", "S3"]), ("require", "c1")]
+    return al
+
+
+def c12_modular_programs(tier, start_index=0):
+    thorough = tier == "thorough"
+    al = c12_modular_alphabet(thorough)
+    idx = start_index
+    bodies = [[a] for a in al] + [[a, b] for a in al for b in al]
+    if thorough:
+        bodies += [[("wait",), a, b] for a in al for b in al if a[0] != b[0]]
+    for body in bodies:
+        for ti, ta in enumerate((None, (3, "steps"))):
+            scen = dict(C12_SUBSCENARIOS)
+            scen["Main"] = {"terminate_after": ta, "terminate_when": ["tw"], "compose": list(body) + [("loop", None, [("wait",)])] if ti == 0 else list(body)}
+            prog = {
+                "behaviors": {"B": {"body": [("loop", None, [("take", "a")])]}},
+                "monitors": dict(MONITOR),
+                "agents": [("A1", "B")],
+                "scenarios": scen,
+                "main": "Main",
+                "top": {"termsim_when": ["ts"], "monitors": ["M"], "records": 1, "records_final": 1},
+            }
+            yield idx, prog
+            idx += 1
+    # the known finding: `terminate when` in the setup block of a sub-scenario
+    for body in ([("do", ["S5"])], [("wait",), ("do", ["S5", "S1"])], [("dofor", ["S5"], 2, "steps")]):
+        scen = dict(C12_SUBSCENARIOS)
+        scen["Main"] = {"terminate_after": (4, "steps"), "terminate_when": ["tw"], "compose": list(body)}
+        prog = {
+            "behaviors": {"B": {"body": [("loop", None, [("take", "a")])]}},
+            "monitors": dict(MONITOR),
+            "agents": [("A1", "B")],
+            "scenarios": scen,
+            "main": "Main",
+            "top": {"termsim_when": ["ts"], "monitors": ["M"], "records": 1, "records_final": 1},
+        }
+        yield idx, prog
+        idx += 1
